@@ -72,7 +72,7 @@ impl Tally {
         "mismatches": self.nmism, "mism_by_class": self.mism_by_class, "first": self.mism}) }
 }
 
-fn check_fields(tally: &mut Tally, lineno: usize, s: i64, t: i64, target: &P4, exp: &Value, cls: Option<&Value>, pmap: &[usize], what: &str) {
+pub fn check_fields(tally: &mut Tally, lineno: usize, s: i64, t: i64, target: &P4, exp: &Value, cls: Option<&Value>, pmap: &[usize], what: &str) {
     // animated, mapped properties
     for (i, alts) in exp.as_array().unwrap().iter().enumerate() {
         let p = pmap[i];
@@ -95,6 +95,29 @@ fn check_fields(tally: &mut Tally, lineno: usize, s: i64, t: i64, target: &P4, e
     }
 }
 
+/// Compares one timeline (already built, start_with applied) with the predictions of a line.
+/// `secs(t)` maps the line's tick times to seconds; times are `line["ts"]` if present, else 0..n.
+pub fn check_timeline(local: &mut Tally, lineno: usize, s: i64, line: &Value, tl: &dyn Timeline<Target = P4>, secs: &dyn Fn(i64) -> f32, pmap: &[usize]) {
+    let tm = &line["tm"];
+    let (cyc, del, rep) = (tm["cyc"].as_i64().unwrap(), tm["del"].as_i64().unwrap(), tm["rep"].as_i64().unwrap());
+    // metadata (C03): what was configured, and total = delay + cycle x (repeats + 1)
+    let exp_total = if rep == -2 { f32::INFINITY } else if rep == -3 { secs(del) + secs(cyc) * 4294967296.0f32 }
+                    else { secs(del) + secs(cyc) * (rep.max(0) + 1) as f32 };
+    if tl.delay() != secs(del) || tl.cycle_duration() != Some(secs(cyc)) || tl.repeat() != repeat_of(rep) || tl.duration() != exp_total {
+        local.miss(json!({"line": lineno, "scale": s, "class": "meta", "got": [tl.delay(), tl.cycle_duration(), format!("{:?}", tl.repeat()), tl.duration().to_string()],
+                          "expected": [secs(del), secs(cyc), rep, exp_total.to_string()]}));
+    }
+    let evals = line["evals"].as_array().unwrap();
+    let cls = line.get("cls").and_then(|c| c.as_array());
+    let ts = line.get("ts").and_then(|c| c.as_array());
+    for (ti, exp) in evals.iter().enumerate() {
+        let t = ts.map(|a| a[ti].as_i64().unwrap()).unwrap_or(ti as i64);
+        let mut target = SENT.clone();
+        tl.update(&mut target, secs(t));
+        check_fields(local, lineno, s, t, &target, exp, cls.map(|c| &c[ti]), pmap, "update");
+    }
+}
+
 pub fn replay_tl_line(tally: &mut Tally, lineno: usize, line: &Value, scales: &[i64]) {
     let pd = line["pd"].as_i64().unwrap();
     let pmap = pmap_of(line);
@@ -112,21 +135,7 @@ pub fn replay_tl_line(tally: &mut Tally, lineno: usize, line: &Value, scales: &[
             let mut tl = build_tl(line, pd, &pmap, s);
             if let Some(v) = start_values(&line["ov"], &pmap) { tl.start_with(&v); }
             let tick = scale(s);
-            let tm = &line["tm"];
-            // metadata (C03): what was configured, and total = delay + cycle x (repeats + 1)
-            let (cyc, del, rep) = (tm["cyc"].as_i64().unwrap(), tm["del"].as_i64().unwrap(), tm["rep"].as_i64().unwrap());
-            let exp_total = if rep == -2 { f32::INFINITY } else if rep == -3 { del as f32 * tick + cyc as f32 * tick * 4294967296.0f32 }
-                            else { line["total"].as_i64().unwrap() as f32 * tick };
-            if tl.delay() != del as f32 * tick || tl.cycle_duration() != Some(cyc as f32 * tick) || tl.repeat() != repeat_of(rep) || tl.duration() != exp_total {
-                local.miss(json!({"line": lineno, "scale": s, "class": "meta", "got": [tl.delay(), tl.cycle_duration(), format!("{:?}", tl.repeat()), tl.duration().to_string()]}));
-            }
-            let evals = line["evals"].as_array().unwrap();
-            let cls = line.get("cls").and_then(|c| c.as_array());
-            for (ti, exp) in evals.iter().enumerate() {
-                let mut target = SENT.clone();
-                tl.update(&mut target, ti as f32 * tick);
-                check_fields(&mut local, lineno, s, ti as i64, &target, exp, cls.map(|c| &c[ti]), &pmap, "update");
-            }
+            check_timeline(&mut local, lineno, s, line, &tl, &|t| t as f32 * tick, &pmap);
             local
         }));
         match r {
